@@ -77,16 +77,29 @@ func (root *Root) AddTypes(types ...Type) (err error) {
 	// revert to the original version.
 	origTypes := root.types
 	origDirs := root.dirs
+	origSchema := root.schema
 	root.types = origTypes.dup()
 	root.dirs = origDirs.dup()
 
+	var undo func()
 	err = root.addTypes(types...)
 	if err == nil {
+		// The same as after a load of SDL, a schema that is not declared
+		// is made up from the type names. Without it a root that was given
+		// its types here only has no schema to resolve a request with.
+		if root.schema != nil {
+			undo = extendUndo(root.schema)
+		}
+		root.assureSchema()
 		err = root.validate()
 	}
 	if err != nil {
+		if undo != nil {
+			undo()
+		}
 		root.types = origTypes
 		root.dirs = origDirs
+		root.schema = origSchema
 	}
 	return
 }
